@@ -317,10 +317,78 @@ func (m *gModel) expectedExits(flagX bool) (map[int]bool, bool) {
 	return set, anyNonZero
 }
 
+// runG: one generated program, one execution -- or, in the fault-enumeration mode of C03, one generated
+// failure-free program executed once per command position with that command failing.
 func runG(t *testing.T, ch *vs.Choices, prop, tier string, render bool) *vs.RunOut {
-	out := &vs.RunOut{Reach: map[string]int{}}
 	b := biasFor(prop, tier)
-	p := genG(ch, b)
+	if prop == "C03" && ch.Bool(1, 3) {
+		b.PFail = 0
+		p := genG(ch, b)
+		code := 1 + ch.Draw(255)
+		type pos struct{ t, c int }
+		var all []pos
+		for _, tk := range p.Tasks {
+			for ci, c := range tk.Cmds {
+				if c.Kind == gProbe && !c.Defer {
+					all = append(all, pos{tk.Idx, ci})
+				}
+			}
+		}
+		maxPos := 8
+		if tier == "thorough" {
+			maxPos = 40
+		}
+		var agg *vs.RunOut
+		for i, ps := range all {
+			if i >= maxPos {
+				break
+			}
+			q := cloneProg(p)
+			q.Tasks[ps.t].Cmds[ps.c].Fail = code
+			o := runGOne(t, ch, q, prop, render)
+			o.Hit("fault_enumeration:failing_position")
+			if agg == nil {
+				agg = o
+			} else {
+				agg.Steps += o.Steps
+				agg.Hash = agg.Hash*1099511628211 ^ o.Hash
+				agg.NonTrivial = agg.NonTrivial || o.NonTrivial
+				for k, v := range o.Reach {
+					agg.Reach[k] += v
+				}
+				agg.Foreign = append(agg.Foreign, o.Foreign...)
+				if len(o.Violations) > 0 && len(agg.Violations) == 0 {
+					agg.Violations, agg.Rendered = o.Violations, o.Rendered
+				}
+				if o.HarnessError != "" {
+					agg.HarnessError = o.HarnessError
+				}
+			}
+		}
+		if agg != nil {
+			agg.Hit("fault_enumeration:programs")
+			return agg
+		}
+		return runGOne(t, ch, p, prop, render)
+	}
+	return runGOne(t, ch, genG(ch, b), prop, render)
+}
+
+func cloneProg(p *gProg) *gProg {
+	q := *p
+	q.Tasks = make([]*gTask, len(p.Tasks))
+	for i, t := range p.Tasks {
+		c := *t
+		c.Deps = append([]gRef(nil), t.Deps...)
+		c.Cmds = append([]gCmd(nil), t.Cmds...)
+		q.Tasks[i] = &c
+	}
+	q.Roots = append([]gRoot(nil), p.Roots...)
+	return &q
+}
+
+func runGOne(t *testing.T, ch *vs.Choices, p *gProg, prop string, render bool) *vs.RunOut {
+	out := &vs.RunOut{Reach: map[string]int{}}
 	m := newGModel(p)
 	if !m.build(100000) {
 		out.HarnessError = "model build over budget"
